@@ -15,6 +15,12 @@ CHECKS = {
 CHECKS["C03"] = ("property-based testing (proptest): generated configurations, invariant over the returned Solution and the call log of an instrumented IVP",
          "Generated search over problems x spans (1e-11..1e6, both directions, infinite with terminal event) x six methods x first_step/max_step/t_eval/dense/events/max_steps combinations; every ode/events/jac call time is recorded by an instrumented IVP and the status<->coverage equivalences are evaluated on each run.",
          "Time slack 4 ulp; 'xend to rounding' = 1e-12 + 32 ulp; panics/hangs are owned by C04.", "DESIGN.md §4 C03")
+CHECKS["C12"] = ("metamorphic property-based testing (proptest): plain run vs the 7 option subsets and a repeat; bit-identity of samples, statistics and a hash of every right-hand-side argument",
+         "Each generated case is solved under all subsets of {t_eval, dense_output, non-terminal events}; the instrumented IVP hashes the bits of every (t,y) passed to the right-hand side, so 'the stepper did not notice the observer' is decided exactly.",
+         "Bit-identity; dense span end compared to 1e-12 + 4 ulp.", "DESIGN.md §4 C12")
+CHECKS["C18"] = ("property-based testing (proptest) against call counters of an instrumented IVP",
+         "Generated problems/methods/tolerances/Jacobian sources; nfev, njev, naccpt, nstep compared with the calls actually observed (finite-difference evaluations separated by a flag set while the crate's default IVP::jac runs).",
+         "One events() call per accepted step is used to count accepted steps (public hook).", "DESIGN.md §4 C18")
 PENDING = {}
 
 def main():
